@@ -34,7 +34,7 @@ TRUST = [
 ]
 ASSUMPTIONS = [
     "known finding C03:choice-required: the generated validate_ has no item for 'at least one branch of a required choice group' (Layout, GateKS, ...)",
-    "known finding C03:pattern-unicode-space: Python's \\s is wider than the schema's",
+    "known finding C03:pattern-unicode-space: Python's Unicode-aware white-space class is wider than the schema's; repair proposed (re.ASCII), not applied because it edits generated code that regeneration (C20) reverts; with it only vertical tab / form feed would remain (C03:pattern-ascii-vt-ff, in-memory trees only)",
     "known finding C03:builtin-int-range: validate_NonNegativeInteger / validate_PositiveInteger do not check the range",
     "file-level wrappers: modelled as build-then-validate (Props/C03File.lean); include resolution is C06's subject and not exercised here",
 ]
@@ -224,6 +224,8 @@ def value_class(v):
         return "int"
     if isinstance(v, float):
         return "float"
+    if facetgen.space_class(v) == "vt-ff":
+        return "vt-ff-space"
     if not plain_spaces(v):
         return "python-only-space"
     if v.endswith("\n"):
@@ -286,7 +288,7 @@ def emit_elems(t):
     return bindgen.emit_xsd.xsd_extract.effective_elems(t["content"])
 
 
-CORPUS = ["segment-without-id", "empty-layout", "nbsp-before-unit", "segment-id-minus-one", "id-with-trailing-lf", "morphology-without-segments"]
+CORPUS = ["segment-without-id", "empty-layout", "nbsp-before-unit", "vtab-before-unit", "segment-id-minus-one", "id-with-trailing-lf", "morphology-without-segments"]
 
 
 def corpus_objects(mod):
@@ -298,7 +300,13 @@ def corpus_objects(mod):
                                              proximal=mod.Point3DWithDiam(x=0.0, y=0.0, z=0.0, diameter=1.0)))
     yield ("NeuroMLDocument", d, {"kind": "required-attr", "member": "id", "owner": "BaseNonNegativeIntegerId",
                                   "inherited": True, "at": "Segment", "depth": 3, "path": ".cells[0].morphology[0].segments[0]"})
-    # known finding C03:pattern-unicode-space: a no-break space between number and unit, two levels down
+    # a vertical tab between number and unit (in memory only: not an XML character): today part of known finding
+    # C03:pattern-unicode-space; on a tree with the proposed re.ASCII repair it is what remains (C03:pattern-ascii-vt-ff)
+    d6 = mod.NeuroMLDocument(id="d")
+    d6.iaf_cells.append(mod.IafCell(id="a", leak_reversal="-70\x0bmV", thresh="1mV", reset="1mV", C="1pF", leak_conductance="1nS"))
+    yield ("NeuroMLDocument", d6, {"kind": "facet", "member": "leak_reversal", "owner": "IafCell", "inherited": False, "at": "IafCell",
+                                   "depth": 1, "path": ".iaf_cells[0]", "value": "-70\x0bmV", "vclass": "vt-ff-space"})
+    # reproduces known finding C03:pattern-unicode-space: a no-break space between number and unit, one level down
     d2 = mod.NeuroMLDocument(id="d")
     d2.iaf_cells.append(mod.IafCell(id="a", leak_reversal="-70\u00a0mV", thresh="1mV", reset="1mV", C="1pF", leak_conductance="1nS"))
     yield ("NeuroMLDocument", d2, {"kind": "facet", "member": "leak_reversal", "owner": "IafCell", "inherited": False, "at": "IafCell",
@@ -336,6 +344,8 @@ def failure_key(inj):
         return "C03:choice-required"
     if kind == "facet" and inj.get("vclass") == "python-only-space":
         return "C03:pattern-unicode-space"
+    if kind == "facet" and inj.get("vclass") == "vt-ff-space":
+        return facetgen.space_key("\x0b")      # today: subsumed by pattern-unicode-space; with re.ASCII: what remains
     if kind == "facet" and inj.get("vclass") == "int":
         return "C03:builtin-int-range"
     return "C03:%s-accepted:%s" % (kind, "inherited" if inj["inherited"] else "own")
@@ -560,7 +570,7 @@ def file_case(ctx, ir, mod, d, inj, tmp, name, sch, lines, pending):
     if not okx:
         if a is True or b == "ok":
             key = failure_key(inj) if inj else "C03:file-wrapper-accepts:uninjected"
-            if key.startswith("C03:") and key.split(":")[1] not in ("choice-required", "pattern-unicode-space", "builtin-int-range"):
+            if key.startswith("C03:") and key.split(":")[1] not in ("choice-required", "pattern-unicode-space", "builtin-int-range", "pattern-ascii-vt-ff"):
                 key = "C03:file-wrapper-accepts:" + (inj["kind"] if inj else "none")
             ctx.fail(key, "libxml2 rejects the file (%s) but is_valid_neuroml2 -> %s, validate_neuroml2 -> %s; injection %s"
                      % (msg, a, b, inj), case)
